@@ -17,7 +17,7 @@
      src/memvid/search/api.rs init_tantivy (segments trusted when the catalog lists them, else
                               rebuilt from the frame table when doc counts differ)
      src/memvid/search/mod.rs the sketch pre-filter of Memvid::search
-     src/memvid/doctor.rs     apply_pending_rebuilds (lex / time / vec) + the Finalize commit
+     src/memvid/doctor.rs     apply_pending_rebuilds (lex / time / vec; vec as repaired by 83a83e8) + the Finalize commit
      src/types/sketch_track.rs write_sketch_track / read_sketch_track at frame-id level
                               (byte level: Model/Sketch.v, C39)
    The store, its frame table and the in-memory sets are those of Model/Store.v / Model/Reads.v. *)
@@ -114,7 +114,9 @@ Definition popen (p : pstore) : pstore :=
   let d := dk p in
   let '(lx, rebuilt) := init_tantivy d (committed (base r)) (attrs r) in
   let d' := match pending (base r) with [] => if rebuilt then flush d lx else d | _ => d end in
-  mkP (mkR (base r) (attrs r) (pattrs r) lx false (k_vec d) (k_vec_on d) (k_vec_on d) (k_tix d))
+  (* vec_enabled = manifest present; the replay of pending records that carry embeddings enables it
+     (commit_from_records, repo commit 8099cac) -- there are none when nothing is pending *)
+  mkP (mkR (base r) (attrs r) (pattrs r) lx false (k_vec d) (k_vec_on d || has_pemb (pattrs r)) (k_vec_on d) (k_tix d))
       [] (sk_read (k_sk d)) (psk p) d'.
 
 (* Memvid::open_read_only: the same loads, no log replay, nothing written *)
@@ -123,9 +125,21 @@ Definition open_ro (d : disk) (frames : list frame) (al : list fattr) : hview :=
 
 (* Memvid::doctor on the closed, fully committed file: try_open (loads), apply_pending_rebuilds ->
    rebuild_indexes(&[], &[]) (time index from the table; Tantivy: no new frames = full rebuild path;
-   vec: the loaded index filtered by frame_is_active, after it was dropped when rebuild_vec_index),
-   then the Finalize commit persists the LOADED sketch track *)
+   vec: build_vec_artifact re-encodes the LOADED index filtered by frame_is_active -- since 83a83e8
+   also under rebuild_vec_index, which loads the index (ensure_vec_index) before it drops the
+   manifest and sets vec_enabled), then the Finalize commit persists the LOADED sketch track *)
 Definition doctor (d : disk) (frames : list frame) (al : list fattr) (lexf timef vecf : bool) : disk :=
+  if lexf || timef || vecf then
+    let lx := lex_full frames al in
+    let von := vecf || k_vec_on d in                    (* `if vec { mem.vec_enabled = true; .. }` *)
+    mkDisk true lx (N.of_nat (length lx))
+           (if von then filter (fun ie => is_active frames (fst ie)) (k_vec d) else [])
+           von (tix_full frames) (sk_written (sk_read (k_sk d)))
+  else d.
+
+(* the code before 83a83e8 (finding F-C14-1, repaired): rebuild_vec_index dropped manifest AND index
+   before rebuild_indexes, whose build_vec_artifact could then only produce an empty index *)
+Definition doctor_unfixed (d : disk) (frames : list frame) (al : list fattr) (lexf timef vecf : bool) : disk :=
   if lexf || timef || vecf then
     let lx := lex_full frames al in
     let von := vecf || k_vec_on d in
